@@ -34,7 +34,7 @@ def _judge(run):
 
 def _post(run):
     """purity differential: the same scenario without anybody looking must give the same tree"""
-    if run.tree is None:
+    if run.tree is None or run.sc["objective"]["family"] == "nanhole":
         return []
     blind = Run(run.sc, checkers=[])
     blind.run_all()
@@ -45,6 +45,6 @@ def _post(run):
     return []
 
 
-P = ScenarioProperty(PROP, {"families": ["step", "constant", "sphere", "rastrigin", "abssum", "twobasin", "linear", "offset"], "cap": (6, 10), "observe_intermittently": True}, lambda sc: [C20Checker(sc)], _judge, quick=1600, thorough=30000, machine={"allow_reload": False, "profile": {"observe_intermittently": True}}, post=_post)
+P = ScenarioProperty(PROP, {"families": ["step", "constant", "sphere", "rastrigin", "abssum", "twobasin", "linear", "offset", "nanhole"], "cap": (6, 10), "observe_intermittently": True}, lambda sc: [C20Checker(sc)], _judge, quick=1600, thorough=30000, machine={"allow_reload": False, "profile": {"observe_intermittently": True}}, post=_post)
 run_shard = P.run_shard
 replay = P.replay
